@@ -390,6 +390,88 @@ pub fn c14(thorough: bool, seed: u64) -> CheckOutput {
         |a, b| a.merge(b),
     );
     acc.merge(growth_acc);
+    // the same question with values that are NEW every time (ranges incl. inverted ones, seeds,
+    // rates, buffer sizes, mutator lists): state keyed by caller-supplied values would saturate in
+    // the repeated cycle above but grows here. One thread alone (process-wide state would otherwise
+    // be charged to whichever thread happens to resize it); four stages of 500 / 2000 / 4000 / 8000
+    // novel configurations, every generator dropped; the live heap must not grow stage after stage
+    // (a bounded cache would stop growing before the last stage).
+    let novel_acc = par_run(
+        1,
+        Acc::new,
+        |_i, acc| {
+            let mut k = 0usize;
+            let mut inv = (1usize, 0usize); // next inverted pair (min, max) with max < min
+            let mut stage = |n: usize| {
+                // no generator is alive when the heap is read: the long-lived one lives for a stage
+                let mut reused = Config::default_for(3, Entropy::Seed(1)).build();
+                for _ in 0..n {
+                    k += 1;
+                    let (min, max) = if k % 2 == 0 {
+                        let p = inv;
+                        inv = if inv.1 + 1 < inv.0 { (inv.0, inv.1 + 1) } else { (inv.0 + 1, 0) };
+                        p
+                    } else {
+                        ((k / 2) % 120, 120 + (k / 2) / 120)
+                    };
+                    let cfg = Config {
+                        min,
+                        max,
+                        mutators: subset((k % 128) as u32),
+                        rate: (k % 20_011) as f64 / 20_011.0,
+                        bufsize: if k % 5 == 0 { Some(64 + k) } else { None },
+                        unsafe_mut: k % 7 == 0,
+                        ext: k % 3 == 0,
+                        buf: k % 4 == 0,
+                        order: (k % 5) as u8,
+                        ..Config::default_for((k % 6) as u8, Entropy::Seed((k as u64).wrapping_mul(0x9E37_79B9_7F4A_7C15)))
+                    };
+                    if k % 3 == 0 {
+                        // a long-lived generator reconfigured through its public fields, as the
+                        // Python wrapper's set_opcode_range does
+                        reused.min_opcodes = cfg.min;
+                        reused.max_opcodes = cfg.max;
+                        reused.seed = Some(k as u64);
+                        reused.mutation_rate = cfg.rate;
+                        let out = gen_once(&mut reused, &cfg.entropy);
+                        drop(out);
+                        reused.reset();
+                    } else {
+                        let mut g = cfg.build();
+                        let out = gen_once(&mut g, &cfg.entropy);
+                        drop(out);
+                        drop(g);
+                    }
+                }
+                drop(reused);
+            };
+            acc.evaluations += 1;
+            stage(500);
+            let l0 = live();
+            stage(2000);
+            let l1 = live();
+            stage(4000);
+            let l2 = live();
+            stage(8000);
+            let l3 = live();
+            acc.count("novel_value_generations", 14_500);
+            acc.count("novel_value_runs", 1);
+            if l1.0 > l0.0 && l2.0 > l1.0 && l3.0 > l2.0 && l3.0 - l0.0 >= 1024 {
+                let msg = format!(
+                    "live heap of the generating thread keeps growing with the number of DISTINCT configurations seen (ranges incl. inverted ones, seeds, rates, buffer sizes) although every generator is dropped or reset: {} bytes after 500 configurations, {} after 2500, {} after 6500, {} after 14500",
+                    l0.0, l1.0, l2.0, l3.0
+                );
+                acc.violate(Violation {
+                    property: "C14".into(),
+                    signature: "C14:unbounded_growth:novel_values".into(),
+                    message: msg.clone(),
+                    replay: json!({"kind": "c14-growth", "property": "C14", "seed": seed, "live_bytes": [l0.0, l1.0, l2.0, l3.0], "message": msg}),
+                });
+            }
+        },
+        |a, b| a.merge(b),
+    );
+    acc.merge(novel_acc);
     let cyc = acc.get("analysed_outputs_with_identity_cycle") + acc.get("steered_outputs_with_identity_cycle");
     if cyc < 20 {
         acc.inconclusive.push(format!("only {} analysed outputs contained an identity cycle (the leak-prone pattern)", cyc));
@@ -831,6 +913,34 @@ pub fn c09(thorough: bool, seed: u64) -> CheckOutput {
                 child_cases.push((format!("deep-tuple1-{}-P{}", depth, p), cfg, true));
             }
         }
+    }
+    // deep states inside the property's bounds (inputs of about 8 KiB): thousands of pending
+    // MARKs / nested tuples / stack and memo entries on a 2 MiB thread
+    {
+        let pol: [(u8, u8); 8] = [(b'(', b'N'), (b'2', b'N'), (b'N', b'('), (0x94, b'N'), (b'p', b'N'), (0x85, b'N'), (b'a', b'2'), (b't', b'(')];
+        let list: Vec<(u8, usize)> = (0..6u8).flat_map(|p| (0..pol.len()).map(move |k| (p, k))).collect();
+        let list_ref = &list;
+        let built = par_run(
+            list.len(),
+            Vec::new,
+            |i, out: &mut Vec<(String, Config, bool)>| {
+                let (p, k) = list_ref[i];
+                let (x, y) = pol[k];
+                let base = Config::default_for(p, Entropy::Bytes(vec![]));
+                let st = steer_long(&base, 7000, false, 48, greedy_policy(x, y));
+                if let Entropy::Bytes(b) = &st.cfg.entropy {
+                    // keep the input within "several KiB": what follows the cut falls back to the
+                    // exhausted-entropy defaults
+                    let mut cfg = st.cfg.clone();
+                    cfg.entropy = Entropy::Bytes(b[..b.len().min(8192)].to_vec());
+                    out.push((format!("deepstate-{:02x}-P{}", x, p), cfg, true));
+                }
+            },
+            |a, b| a.extend(b),
+        );
+        let mut built = built;
+        built.sort_by(|a, b| a.0.cmp(&b.0));
+        child_cases.extend(built);
     }
     {
         let mut rng = Rng::new(seed ^ 0x10e6);
